@@ -168,6 +168,11 @@ class PriceLimitPlugin(SlotPlugin):
 class ShockPlugin(SlotPlugin):
     CLASS = "*"
 
+    def __init__(self, label: str = "C14"):
+        # the exact zero-volatility continuation and positivity belong to C12 as well: the C12 check runs
+        # this plugin with label="C12" for those clauses
+        self.label = label
+
     def attach(self, mon):
         self.CLASS = "FundamentalPriceShock"
         super().attach(mon)
@@ -217,6 +222,9 @@ class ShockPlugin(SlotPlugin):
     def step_start(self, mon):
         """first hook of the step: zero-volatility fundamentals continue exactly from their level."""
         for m in mon.markets:
+            v = m.get_fundamental_price()
+            if not (isinstance(v, float) and math.isfinite(v) and v > 0):
+                mon.viol(self.label, "fundamental_not_positive_finite", {"market": m.name, "t": m.get_time(), "value": v})
             mid = m.market_id
             if mid not in self.zero_vol:
                 continue
@@ -226,8 +234,9 @@ class ShockPlugin(SlotPlugin):
                 want = prev * math.exp(self.zero_vol[mid])
                 got = m.get_fundamental_price(now)
                 if not close(got, want, 1e-12):
-                    mon.viol("C14", "zero_vol_continuation", {"market": m.name, "t": now, "got": got, "want": want})
+                    mon.viol(self.label, "zero_vol_continuation", {"market": m.name, "t": now, "got": got, "want": want})
                 mon.stat("zero_vol_steps")
+                mon.probe("zero_vol_step")
 
     def check_fund(self, mon, sl, market, b, a):
         st = sl["settings"]
